@@ -14,7 +14,16 @@ Scripts3 == ScriptsUpTo(3)
 (* liveness: scripts in which the peer ends the stream *)
 ScriptsEnd2 == {Append(s, x) : s \in SeqsUpTo(NonTerm, 1), x \in Term}
 
+(* quick tier: plain stanzas are left to the larger configurations *)
+NonTermQ == NonTerm \ {Item("stanza", Unknown)}
+ScriptsQ == SeqsUpTo(NonTermQ, 2) \cup {Append(s, x) : s \in SeqsUpTo(NonTermQ, 1), x \in Term}
+(* liveness: one requester, a closer, every kind of script of length <= 2 *)
+ScriptsL == ScriptsQ
+ProgramsL == { <<"close", "tx">>, <<"tx">> }
+ProgramsR == { <<"close", "tx">>, <<"tx", "close">> }
+
 ProgramsMC == { <<>>, <<"tx">>, <<"close">>, <<"tx", "close">>, <<"close", "tx">>, <<"close", "close">>, <<"updaddr">> }
 ProgramsDl == ProgramsMC \cup { <<"deadline", "close">>, <<"deadline">>, <<"updaddr", "tx">> }
+ProgramsQ == { <<"close", "tx">>, <<"updaddr", "tx">> }
 ProgramsSmall == { <<"tx">>, <<"close">>, <<"close", "tx">>, <<"updaddr">> }
 =============================================================================
